@@ -1,0 +1,223 @@
+//go:build verif
+
+// Contracts for govc (contract-based deductive verification); comments only.
+package minruntime
+
+//@ import pod_info "github.com/NVIDIA/KAI-scheduler/pkg/scheduler/api/pod_info"
+//@ import sgi "github.com/NVIDIA/KAI-scheduler/pkg/scheduler/api/podgroup_info/subgroup_info"
+
+// ---- validVictimForMinAvailable ------------------------------------------------------------------
+// name of the pod set a victim task is counted against ("default" for an empty SubGroupName)
+//@ define sgName(t *pod_info.PodInfo) string = ite(t.SubGroupName != "", t.SubGroupName, "default")
+// vcount(v, n, sg): number of tasks among the first n victim tasks of v that belong to pod set sg.
+// Ghost counting function; its recursive definition is supplied by the `assume` clauses of the
+// contract (a definitional extension: the function reads only v.Tasks[i].SubGroupName, which the
+// function under contract does not modify).
+//@ declare vcount(v *api.VictimInfo, n int, sg string) int
+//@ define victimsOf(v *api.VictimInfo, sg string) int = vcount(v, len(v.Tasks), sg)
+//@ define podSetOf(v *api.VictimInfo, sg string) *sgi.PodSet = v.Job.PodSets[sg]
+// C06: "elastic workloads only down to their minimum size": after removing the victims every pod
+// set that loses a task keeps at least minAvailable active tasks.
+//@ define keepsMin(v *api.VictimInfo, sg string) bool = podSetOf(v, sg).minAvailable <= podSetOf(v, sg).numActiveUsedTasks - victimsOf(v, sg)
+
+//@ func validVictimForMinAvailable
+//@   props C06 C03
+//@   requires victimInfo != nil && victimInfo.Job != nil
+//@   requires forall i int :: 0 <= i && i < len(victimInfo.Tasks) ==> victimInfo.Tasks[i] != nil
+//@   # nil-safety: every victim task names a pod set of its job (unknown sub-group name => nil PodSet dereference)
+//@   requires forall i int :: 0 <= i && i < len(victimInfo.Tasks) ==> sgName(victimInfo.Tasks[i]) in victimInfo.Job.PodSets && victimInfo.Job.PodSets[sgName(victimInfo.Tasks[i])] != nil
+//@   assume forall sg string :: vcount(victimInfo, 0, sg) == 0
+//@   assume forall n int, sg string :: 0 <= n && n < len(victimInfo.Tasks) ==> vcount(victimInfo, n + 1, sg) == vcount(victimInfo, n, sg) + ite(sgName(victimInfo.Tasks[n]) == sg, 1, 0)
+//@   pure
+//@   loop 1
+//@     invariant 0 - 1 <= rangeindex && rangeindex < len(victimInfo.Tasks)
+//@     invariant forall sg string :: numVictimTasksPerSubGroup[sg] == vcount(victimInfo, rangeindex + 1, sg) && vcount(victimInfo, rangeindex + 1, sg) >= 0
+//@     invariant forall sg string :: sg in numVictimTasksPerSubGroup <==> vcount(victimInfo, rangeindex + 1, sg) > 0
+//@     invariant forall sg in numVictimTasksPerSubGroup :: sg in victimInfo.Job.PodSets && victimInfo.Job.PodSets[sg] != nil
+//@     decreases len(victimInfo.Tasks) - rangeindex
+//@   loop 2
+//@     invariant forall sg in visited :: sg in numVictimTasksPerSubGroup
+//@     invariant forall sg in visited :: numCurrentlyRunningSubGroup[sg] == podSetOf(victimInfo, sg).numActiveUsedTasks
+//@   loop 3
+//@     invariant forall sg in visited :: sg in numVictimTasksPerSubGroup
+//@     invariant forall sg in visited :: keepsMin(victimInfo, sg)
+//@   ensures [keepsMinimum] result == (forall sg string :: victimsOf(victimInfo, sg) > 0 ==> keepsMin(victimInfo, sg))
+//@ end
+
+// ---- resolver.go -----------------------------------------------------------------------------------
+//@ import queue_info "github.com/NVIDIA/KAI-scheduler/pkg/scheduler/api/queue_info"
+
+//@ define parentOf(r *resolver, q *queue_info.QueueInfo) *queue_info.QueueInfo = r.queues[q.ParentQueue]
+// Acyclicity of the parent chain as a ranking function (parentQueue == itself or a longer cycle makes
+// the walk-up loops non-terminating: known C10 finding; here it is a precondition).
+//@ declare rank(q *queue_info.QueueInfo) int
+//@ define acyclic(r *resolver) bool = forall q *queue_info.QueueInfo :: rank(q) >= 0 && (q != nil && parentOf(r, q) != nil ==> rank(parentOf(r, q)) < rank(q))
+// C06 "min-runtime settings (queue and LCA resolution)": the resolved preempt min-runtime of a queue is
+// the setting of the nearest ancestor-or-self that has one, else the plugin default.
+// Ghost function, recursive definition supplied by `assume` in each contract that uses it.
+//@ declare preemptMR(r *resolver, q *queue_info.QueueInfo) int
+//@ define preemptMRdef(r *resolver) bool = preemptMR(r, nil) == r.defaultPreemptMinRuntime.Duration && (forall q *queue_info.QueueInfo :: q != nil ==> preemptMR(r, q) == ite(q.PreemptMinRuntime != nil, q.PreemptMinRuntime.Duration, preemptMR(r, parentOf(r, q))))
+
+//@ func (*resolver).resolvePreemptMinRuntime
+//@   props C06
+//@   requires r != nil && queue != nil && acyclic(r)
+//@   assume preemptMRdef(r)
+//@   modifies r.preemptMinRuntimeCache[*]
+//@   loop 1
+//@     invariant preemptMR(r, currentQueue) == preemptMR(r, queue)
+//@     decreases ite(currentQueue == nil, 0, rank(currentQueue) + 1)
+//@   ensures [nearestAncestorElseDefault] result0.Duration == preemptMR(r, queue)
+//@   ensures result1 == nil
+//@ end
+
+// Cache hit path: the cache is a map with struct values (metav1.Duration), which the engine
+// over-approximates, so the functional post is stated for the miss path only (see report).
+//@ func (*resolver).getPreemptMinRuntime
+//@   props C06
+//@   requires r != nil && acyclic(r)
+//@   assume preemptMRdef(r)
+//@   modifies r.preemptMinRuntimeCache[*]
+//@   ensures [nilQueueDefault] queue == nil ==> result0.Duration == r.defaultPreemptMinRuntime.Duration && result1 != nil
+//@   ensures [resolved] queue != nil && !old(queue.UID in r.preemptMinRuntimeCache) ==> result0.Duration == preemptMR(r, queue) && result1 == nil
+//@   ensures queue != nil ==> result1 == nil
+//@ end
+
+// Path from the top-level ancestor down to the queue itself: consecutive entries are parent/child,
+// the first entry has no (known) parent, the last entry is the queue.
+//@ define isPath(r *resolver, p []*queue_info.QueueInfo, q *queue_info.QueueInfo) bool = len(p) >= 1 && p[len(p) - 1] == q && parentOf(r, p[0]) == nil && (forall i int :: 0 <= i && i < len(p) ==> p[i] != nil) && (forall i int :: 1 <= i && i < len(p) ==> p[i - 1] == parentOf(r, p[i]))
+
+//@ func (*resolver).getQueueHierarchyPath
+//@   props C06
+//@   requires r != nil && queue != nil && acyclic(r)
+//@   pure
+//@   loop 1
+//@     invariant len(hierarchyPath) == 0 ==> currentQueue == queue
+//@     invariant len(hierarchyPath) > 0 ==> hierarchyPath[len(hierarchyPath) - 1] == queue && currentQueue == parentOf(r, hierarchyPath[0])
+//@     invariant forall i int :: 0 <= i && i < len(hierarchyPath) ==> hierarchyPath[i] != nil
+//@     invariant forall i int :: 1 <= i && i < len(hierarchyPath) ==> hierarchyPath[i - 1] == parentOf(r, hierarchyPath[i])
+//@     decreases ite(currentQueue == nil, 0, rank(currentQueue) + 1)
+//@   ensures [ancestorChain] isPath(r, result, queue)
+//@ end
+
+// Resolved reclaim min-runtime when walking up from queue q: the setting of the nearest
+// ancestor-or-self that has one, else the plugin default (ghost, defined by `assume` like preemptMR).
+//@ declare reclaimMR(r *resolver, q *queue_info.QueueInfo) int
+//@ define reclaimMRdef(r *resolver) bool = reclaimMR(r, nil) == r.defaultReclaimMinRuntime.Duration && (forall q *queue_info.QueueInfo :: q != nil ==> reclaimMR(r, q) == ite(q.ReclaimMinRuntime != nil, q.ReclaimMinRuntime.Duration, reclaimMR(r, parentOf(r, q))))
+
+// "queue" resolution: walk up from the victim's (preemptee's) queue.
+//@ func (*resolver).resolveReclaimMinRuntimeQueue
+//@   props C06
+//@   requires r != nil && preemptorQueue != nil && preempteeQueue != nil && acyclic(r)
+//@   assume reclaimMRdef(r)
+//@   modifies family(r.reclaimMinRuntimeCache[*]), family(r.reclaimMinRuntimeCache[""][*])
+//@   loop 1
+//@     invariant reclaimMR(r, currentQueue) == reclaimMR(r, preempteeQueue)
+//@     decreases ite(currentQueue == nil, 0, rank(currentQueue) + 1)
+//@   ensures [nearestAncestorElseDefault] result0.Duration == reclaimMR(r, preempteeQueue)
+//@   ensures result1 == nil
+//@ end
+
+// "lca" resolution (resolver.go doc comment): find the lowest common ancestor of the two queues
+// (top-level queues are siblings under an implicit root), step one level down towards the victim's
+// queue (or stay on it), and from there use the nearest ancestor-or-self setting, else the default.
+// commonUpTo(P, V, L): the two top-down paths agree (by UID) on indices 0..L
+//@ define commonUpTo(p []*queue_info.QueueInfo, v []*queue_info.QueueInfo, l int) bool = forall j int :: 0 <= j && j <= l ==> p[j].UID == v[j].UID
+//@ define minLen(p []*queue_info.QueueInfo, v []*queue_info.QueueInfo) int = ite(len(p) < len(v), len(p), len(v))
+
+// The four property clauses mention the function's own locals (the two paths, the start index), so they
+// are `lemma`s (proved at exit, not exported to callers).
+//@ func (*resolver).resolveReclaimMinRuntimeLCA
+//@   props C06
+//@   requires r != nil && preemptorQueue != nil && preempteeQueue != nil && acyclic(r)
+//@   assume reclaimMRdef(r)
+//@   modifies family(r.reclaimMinRuntimeCache[*]), family(r.reclaimMinRuntimeCache[""][*])
+//@   loop 1
+//@     invariant 0 <= i && i <= minLength && 0 <= lcaIndex && lcaIndex < minLength
+//@     invariant lcaIndex == ite(i == 0, 0, i - 1)
+//@     invariant commonUpTo(preemptorPath, preempteePath, lcaIndex)
+//@     decreases minLength - i
+//@   loop 2
+//@     invariant 0 - 1 <= i && i < len(preempteePath)
+//@     invariant duration.Duration == r.defaultReclaimMinRuntime.Duration
+//@     invariant reclaimMR(r, ite(i >= 0, preempteePath[i], nil)) == reclaimMR(r, preempteePath[lcaIndex])
+//@     decreases i + 1
+//@   lemma [pathsAreAncestorChains] isPath(r, preemptorPath, preemptorQueue) && isPath(r, preempteePath, preempteeQueue)
+//@   lemma [differentTopLevel] preemptorPath[0].UID != preempteePath[0].UID ==> result0.Duration == ite(preempteePath[0].ReclaimMinRuntime != nil, preempteePath[0].ReclaimMinRuntime.Duration, r.defaultReclaimMinRuntime.Duration)
+//@   # the start index f = lcaIndex: everything above it is common to both paths, and f is the child of the LCA on the
+//@   # victim's path (first index where the paths differ, or where the preemptor's path ends), or the victim's own
+//@   # queue when that queue is itself a common ancestor
+//@   lemma [commonPrefixAboveStart] preemptorPath[0].UID == preempteePath[0].UID && lcaIndex >= 1 ==> commonUpTo(preemptorPath, preempteePath, lcaIndex - 1)
+//@   lemma [startIsChildOfLCA] preemptorPath[0].UID == preempteePath[0].UID ==> (lcaIndex < minLen(preemptorPath, preempteePath) && preemptorPath[lcaIndex].UID != preempteePath[lcaIndex].UID) || lcaIndex >= len(preemptorPath) || (lcaIndex == len(preempteePath) - 1 && commonUpTo(preemptorPath, preempteePath, lcaIndex))
+//@   lemma [walkUpFromStart] preemptorPath[0].UID == preempteePath[0].UID ==> 0 <= lcaIndex && lcaIndex < len(preempteePath) && result0.Duration == reclaimMR(r, preempteePath[lcaIndex])
+//@   ensures result1 == nil
+//@ end
+
+// Cache hit path: map with struct values (over-approximated by the engine) - functional post for the miss path.
+//@ func (*resolver).getReclaimMinRuntime
+//@   props C06
+//@   requires r != nil && acyclic(r)
+//@   assume reclaimMRdef(r)
+//@   modifies family(r.reclaimMinRuntimeCache[*]), family(r.reclaimMinRuntimeCache[""][*])
+//@   ensures [nilQueueDefault] (preemptorQueue == nil || preempteeQueue == nil) ==> result0.Duration == r.defaultReclaimMinRuntime.Duration && result1 != nil
+//@   ensures [queueMethodResolved] preemptorQueue != nil && preempteeQueue != nil && resolveMethod != "lca" && !old(preempteeQueue.UID in r.reclaimMinRuntimeCache[preemptorQueue.UID]) ==> result0.Duration == reclaimMR(r, preempteeQueue)
+//@   ensures preemptorQueue != nil && preempteeQueue != nil ==> result1 == nil
+//@ end
+
+// ---- minruntime.go: protection predicates ---------------------------------------------------------------
+// C06: "never evict pods ... of workloads still inside the minimum runtime configured for their queue":
+// a victim is protected iff it has a start time and now < lastStart + resolved min-runtime.
+// now() = the value of the function's (single) time.Now() call. Stated for the cache-miss path; on a hit
+// the cached verdict (computed by this same code earlier in the session) is returned.
+//@ define started(v *podgroup_info.PodGroupInfo) bool = v.LastStartTimestamp != nil && *v.LastStartTimestamp != 0
+//@ define pluginOK(mr *minruntimePlugin) bool = mr != nil && mr.resolver != nil && acyclic(mr.resolver) && mr.preemptProtectionCache != nil && mr.reclaimProtectionCache != nil
+
+//@ func (*minruntimePlugin).isPreemptMinRuntimeProtected
+//@   props C06
+//@   requires pluginOK(mr) && victim != nil
+//@   assume preemptMRdef(mr.resolver)
+//@   modifies mr.preemptProtectionCache[victim.UID], mr.resolver.preemptMinRuntimeCache[*]
+//@   ensures [cacheHit] old(victim.UID in mr.preemptProtectionCache) ==> result == old(mr.preemptProtectionCache[victim.UID])
+//@   ensures [neverStartedNotProtected] !old(victim.UID in mr.preemptProtectionCache) && !started(victim) ==> !result
+//@   ensures [protectedWhileInsideMinRuntime] !old(victim.UID in mr.preemptProtectionCache) && started(victim) && mr.queues[victim.Queue] != nil && !old(mr.queues[victim.Queue].UID in mr.resolver.preemptMinRuntimeCache) ==> result == (now() < *victim.LastStartTimestamp + preemptMR(mr.resolver, mr.queues[victim.Queue]))
+//@   ensures [unknownQueueUsesDefault] !old(victim.UID in mr.preemptProtectionCache) && started(victim) && mr.queues[victim.Queue] == nil ==> result == (now() < *victim.LastStartTimestamp + mr.defaultPreemptMinRuntime.Duration)
+//@   ensures [verdictCached] !old(victim.UID in mr.preemptProtectionCache) && started(victim) ==> victim.UID in mr.preemptProtectionCache && mr.preemptProtectionCache[victim.UID] == result
+//@ end
+
+//@ define reclaimCached(mr *minruntimePlugin, p *podgroup_info.PodGroupInfo, v *podgroup_info.PodGroupInfo) bool = v.UID in mr.reclaimProtectionCache[p.UID]
+
+//@ func (*minruntimePlugin).isReclaimMinRuntimeProtected
+//@   props C06
+//@   requires pluginOK(mr) && victim != nil && pendingJob != nil
+//@   assume reclaimMRdef(mr.resolver)
+//@   modifies family(mr.reclaimProtectionCache[*]), family(mr.reclaimProtectionCache[""][*]), family(mr.resolver.reclaimMinRuntimeCache[*]), family(mr.resolver.reclaimMinRuntimeCache[""][*])
+//@   ensures [cacheHit] old(reclaimCached(mr, pendingJob, victim)) ==> result == old(mr.reclaimProtectionCache[pendingJob.UID][victim.UID])
+//@   ensures [neverStartedNotProtected] !old(reclaimCached(mr, pendingJob, victim)) && !started(victim) ==> !result
+//@   ensures [protectedWhileInsideMinRuntime] !old(reclaimCached(mr, pendingJob, victim)) && started(victim) && mr.reclaimResolveMethod != "lca" && mr.queues[victim.Queue] != nil && mr.queues[pendingJob.Queue] != nil && !old(mr.queues[victim.Queue].UID in mr.resolver.reclaimMinRuntimeCache[mr.queues[pendingJob.Queue].UID]) ==> result == (now() < *victim.LastStartTimestamp + reclaimMR(mr.resolver, mr.queues[victim.Queue]))
+//@   ensures [unknownQueueUsesDefault] !old(reclaimCached(mr, pendingJob, victim)) && started(victim) && (mr.queues[victim.Queue] == nil || mr.queues[pendingJob.Queue] == nil) ==> result == (now() < *victim.LastStartTimestamp + mr.defaultReclaimMinRuntime.Duration)
+//@ end
+
+// C06: non-elastic victims inside their min-runtime are filtered out; elastic victims are always
+// let through here and checked by the scenario validators ("elastic workloads only down to their minimum size").
+//@ define elastic(v *podgroup_info.PodGroupInfo) bool = exists k in v.PodSets :: v.PodSets[k].minAvailable < len(v.PodSets[k].podInfos)
+
+//@ func (*minruntimePlugin).preemptFilterFn
+//@   props C06
+//@   requires pluginOK(mr) && podgroup_info.setsOK(victim)
+//@   assume preemptMRdef(mr.resolver)
+//@   modifies mr.preemptProtectionCache[victim.UID], mr.resolver.preemptMinRuntimeCache[*]
+//@   ensures [elasticAlwaysPasses] elastic(victim) ==> result
+//@   ensures [nonElasticNeverStartedPasses] !elastic(victim) && !old(victim.UID in mr.preemptProtectionCache) && !started(victim) ==> result
+//@   ensures [nonElasticAcceptedOnlyAfterMinRuntime] !elastic(victim) && !old(victim.UID in mr.preemptProtectionCache) && started(victim) && mr.queues[victim.Queue] != nil && !old(mr.queues[victim.Queue].UID in mr.resolver.preemptMinRuntimeCache) ==> result == (now() >= *victim.LastStartTimestamp + preemptMR(mr.resolver, mr.queues[victim.Queue]))
+//@   ensures [cachedVerdict] !elastic(victim) && old(victim.UID in mr.preemptProtectionCache) ==> result == !old(mr.preemptProtectionCache[victim.UID])
+//@ end
+
+//@ func (*minruntimePlugin).reclaimFilterFn
+//@   props C06
+//@   requires pluginOK(mr) && podgroup_info.setsOK(victim) && pendingJob != nil
+//@   assume reclaimMRdef(mr.resolver)
+//@   modifies family(mr.reclaimProtectionCache[*]), family(mr.reclaimProtectionCache[""][*]), family(mr.resolver.reclaimMinRuntimeCache[*]), family(mr.resolver.reclaimMinRuntimeCache[""][*])
+//@   ensures [elasticAlwaysPasses] elastic(victim) ==> result
+//@   ensures [nonElasticNeverStartedPasses] !elastic(victim) && !old(reclaimCached(mr, pendingJob, victim)) && !started(victim) ==> result
+//@   ensures [nonElasticAcceptedOnlyAfterMinRuntime] !elastic(victim) && !old(reclaimCached(mr, pendingJob, victim)) && started(victim) && mr.reclaimResolveMethod != "lca" && mr.queues[victim.Queue] != nil && mr.queues[pendingJob.Queue] != nil && !old(mr.queues[victim.Queue].UID in mr.resolver.reclaimMinRuntimeCache[mr.queues[pendingJob.Queue].UID]) ==> result == (now() >= *victim.LastStartTimestamp + reclaimMR(mr.resolver, mr.queues[victim.Queue]))
+//@   ensures [cachedVerdict] !elastic(victim) && old(reclaimCached(mr, pendingJob, victim)) ==> result == !old(mr.reclaimProtectionCache[pendingJob.UID][victim.UID])
+//@ end
